@@ -1,6 +1,10 @@
 package loader
 
-import "github.com/compose-spec/compose-go/v2/types"
+import (
+	"context"
+
+	"github.com/compose-spec/compose-go/v2/types"
+)
 
 // C06: include == pasting the included, fully resolved model. Real pipeline over a
 // virtual file system; included files are delivered by the YAML stub as parsed trees.
@@ -282,7 +286,12 @@ func VerifC06Entries() {
 	case 2:
 		inc = []any{map[string]any{"path": []any{"svc/compose.yaml", "svc/extra1.yaml", "svc/extra2.yaml"}}, "svc/compose.yaml"}
 	}
-	m, err := tcLoad(nil, nil, map[string]any{"include": inc, "services": map[string]any{"own": map[string]any{"image": "i"}}})
+	// the name the caller gives the main file: absolute, or relative (a display name) - the included files are named
+	// compose.yaml as well
+	mainName := []string{w + "/compose.yaml", "compose.yaml", "./compose.yaml"}[vrtChoice("mainFileName", 3)]
+	m, err := LoadModelWithContext(context.Background(), types.ConfigDetails{WorkingDir: w, Environment: types.Mapping{},
+		ConfigFiles: []types.ConfigFile{{Filename: mainName, Config: map[string]any{"include": inc, "services": map[string]any{"own": map[string]any{"image": "i"}}}}}},
+		func(o *Options) { o.SetProjectName("p", true); o.ResolvePaths = true })
 	vrtObserve("err", err != nil)
 	vrtAssert("loads", err == nil)
 	if err != nil {
